@@ -570,14 +570,14 @@ pub fn run(eng: &mut Engine) {
         PartCfg::new(
             "listing",
             "operation sequences add / remove / publish / set_complete / read-n / drain / advance over objects with hostile-but-legal metadata strings, per-object OTI, all cache-control variants, groups, both publish modes, FDT cenc, any fdt_start_id; every completely emitted instance is reassembled by the reference receiver, read by two independent XML readers and compared with the model (exact TOI set, every attribute, Expires, ids +1 mod 2^20, Complete flag), and must arrive identically at flute's receiver; non-trivial = a remove before a later publish, a string needing escaping, an id wrap or an automatic publication; distinct by case",
-            tier.pick(12_000, 400_000),
+            tier.pick(50_000, 1_000_000),
         ),
         move || strategy(tier),
         move |c| run_case(c, &known, false),
     );
     let known = super::c01::known_fn(eng);
     eng.generated(
-        PartCfg::new("id-wrap", "the same sequences started 0-5 publications below 2^20 so that the instance id wraps", tier.pick(3_000, 100_000)),
+        PartCfg::new("id-wrap", "the same sequences started 0-5 publications below 2^20 so that the instance id wraps", tier.pick(12_000, 250_000)),
         wrap_strategy,
         move |c| run_case(c, &known, false),
     );
@@ -586,7 +586,7 @@ pub fn run(eng: &mut Engine) {
         PartCfg::new(
             "supersede",
             "FDT durations 1-45 s, polled every 1-250 ms over three durations: the successor of an instance with Expires = X is completely emitted by X + 1 s + one poll step (strictly before X for durations above 30 s); listing rules as in [listing]",
-            tier.pick(1_500, 40_000),
+            tier.pick(6_000, 100_000),
         )
         .limit_s(120),
         supersede_strategy,
